@@ -143,6 +143,134 @@ PROGRAM_NAMES = ["c03:fn_nest3", "c03:fn_nest3_called", "c03:fn_with_loop_twice"
                  "c03:switch3", "c03:sym_loop", "c03:sym_cond", "c03:img_conv", "c03:img_loop"]
 FOUR_D = [("c03", "c03:img_conv"), ("c03", "c03:img_loop"), ("extra", "x:conv_nchw")]
 
+# =========================================================================== symbolic dims x control flow
+# Family added after a seeded regression (make_subgraph_context sharing the parent's symbolic-dim origin table with
+# body contexts): a symbolic input dim, a control-flow body that BINDS a value carrying that dim (closed-over batch
+# tensor / cond operand) while the construct's outputs do not carry it, and a run-time use of the dim in the
+# enclosing graph before / inside / after the construct or in the sibling branch.  If the enclosing scope's record
+# of where the dim can be read is overwritten from inside the body, the enclosing graph emits Shape(<body value>):
+# a use of a name no enclosing scope defines, which wf_model rejects.
+SYM_CONTROLS = ["while", "fori", "scan", "cond", "loop_in_cond", "fn_loop"]
+SYM_USES = ["before", "inside", "after", "before_after", "sibling_then", "sibling_else"]
+_SYM = None
+
+
+def _sym_programs():
+    """name -> (fn, spec, symbol names); names `c03s:<control>:<use>:<B|BC>`"""
+    global _SYM, c03_sym_fn_loop, c03_sym_fn_loop_inside
+    if _SYM is not None:
+        return _SYM
+    import jax.numpy as jnp
+    from jax import lax
+    from jax2onnx import onnx_function
+
+    def dimvec(x, two, fill):
+        """a value whose construction needs the run-time value of the symbolic dim(s)"""
+        v = jnp.broadcast_to(fill, (x.shape[0],))
+        if two:
+            v = v + jnp.sum(jnp.broadcast_to(fill, (x.shape[0], x.shape[1])), axis=1)
+        return v
+
+    def fori_sum(a, n, term):
+        """fori_loop does not support closing over a traced tensor (exporter limitation, raises): the batch tensor is
+        threaded through the loop state instead, the construct's result is the scalar component"""
+        return lax.fori_loop(0, n, lambda i, st: (st[0] + term(st[1], st[0]), st[1]), (0.0, a))[0]
+
+    @onnx_function
+    def c03_sym_fn_loop(x):
+        return fori_sum(x, 3, lambda a, acc: jnp.sum(a * 2.0))
+
+    @onnx_function
+    def c03_sym_fn_loop_inside(x):
+        return fori_sum(x, 3, lambda a, acc: jnp.sum(a * 2.0) + jnp.sum(jnp.broadcast_to(acc, (a.shape[0],))))
+
+    def reduce_with(control, x, inside, two):
+        """scalar computed by a control-flow construct whose body binds the batch tensor x"""
+        def term(a, acc):
+            t = jnp.sum(a * 2.0)
+            if inside:
+                t = t + jnp.sum(dimvec(a, two, acc))
+            return t
+        if control == "while":
+            return lax.while_loop(lambda st: st[0] < 3, lambda st: (st[0] + 1, st[1] + term(x, st[1])), (0, 0.0))[1]
+        if control == "fori":
+            return fori_sum(x, 3, term)
+        if control == "scan":
+            return lax.scan(lambda c, t: (c + term(x, c) * t, c), 0.0, jnp.arange(3.0))[0]
+        if control == "cond":
+            return lax.cond(jnp.sum(x) > 0, lambda a: term(a, 1.0), lambda a: jnp.sum(jnp.reshape(a, (-1,))), x)
+        if control == "loop_in_cond":
+            return lax.cond(jnp.sum(x) > 0, lambda a: fori_sum(a, 2, term), lambda a: jnp.sum(a), x)
+        if control == "fn_loop":
+            return c03_sym_fn_loop_inside(x) if inside else c03_sym_fn_loop(x)
+        raise KeyError(control)
+
+    def make(control, use, two):
+        def prog(x):
+            if use in ("sibling_then", "sibling_else"):
+                binds = (lambda a: jnp.sum(a * 2.0)) if control == "cond" else \
+                    (lambda a: fori_sum(a, 2, lambda b, acc: jnp.sum(b * 2.0)))
+                uses = lambda a: jnp.sum(dimvec(a, two, 1.5))          # noqa: E731
+                br = (uses, binds) if use == "sibling_then" else (binds, uses)
+                s = lax.cond(jnp.sum(x) > 0, br[0], br[1], x)
+                return dimvec(x, two, s) + x[:, 0]
+            pre = dimvec(x, two, 1.0) if use in ("before", "before_after") else None
+            s = reduce_with(control, x, use == "inside", two)
+            if use == "before":
+                return pre * s + x[:, 0]
+            if use == "inside":
+                return x[:, 0] + s
+            out = dimvec(x, two, s) + x[:, 0]
+            return out * pre if use == "before_after" else out
+        return prog
+    progs = {}
+    for control in SYM_CONTROLS:
+        for use in SYM_USES:
+            if use.startswith("sibling") and control not in ("cond", "loop_in_cond"):
+                continue
+            for two in (False, True):
+                spec = [("B", "C")] if two else [("B", 3)]
+                progs[f"c03s:{control}:{use}:{'BC' if two else 'B'}"] = (make(control, use, two), spec)
+    _SYM = progs
+    return _SYM
+
+
+def sym_names():
+    out = []
+    for control in SYM_CONTROLS:
+        for use in SYM_USES:
+            if use.startswith("sibling") and control not in ("cond", "loop_in_cond"):
+                continue
+            out += [f"c03s:{control}:{use}:B", f"c03s:{control}:{use}:BC"]
+    return out
+
+
+def run_two_bindings(fn, spec, data, dp):
+    """load the exported model in onnxruntime and RUN it for two bindings of the symbolic dims; the outputs must have the
+    shapes JAX computes (values are other properties' business).  -> None | message"""
+    import numpy as np
+    import jax
+    import onnxruntime as ort
+    so = ort.SessionOptions()
+    so.log_severity_level = 4
+    sess = ort.InferenceSession(data, so, providers=["CPUExecutionProvider"])
+    for bind in ({"B": 2, "C": 3}, {"B": 5, "C": 4}):
+        feeds = []
+        for k, shp in enumerate(spec):
+            dims = tuple(bind[d] if isinstance(d, str) else d for d in shp)
+            n = int(np.prod(dims)) if dims else 1
+            feeds.append(((np.arange(n, dtype=np.float64).reshape(dims) - n / 3.0) / 10.0 + k).astype(np.float64 if dp else np.float32))
+        try:
+            got = sess.run(None, dict(zip([i.name for i in sess.get_inputs()], feeds)))
+        except Exception as e:  # noqa
+            return f"binding {bind}: onnxruntime run failed: {_short(e)}"
+        want = jax.tree_util.tree_leaves(jax.eval_shape(fn, *[jax.ShapeDtypeStruct(f.shape, f.dtype) for f in feeds]))
+        gs, ws = [tuple(g.shape) for g in got], [tuple(w.shape) for w in want]
+        if gs != ws:
+            return f"binding {bind}: output shapes {gs} differ from JAX {ws}"
+    return None
+
+
 
 # =========================================================================== export + external checks (worker)
 def _short(e):
@@ -232,6 +360,10 @@ def export_job(kind, ident, over):
         m = export_reg(exports.registry_items()[ident], **over)
     elif kind == "extra":
         m = exports.export_extra(ident, **over)
+    elif kind == "sym":
+        from jax2onnx import to_onnx
+        fn, spec = _sym_programs()[ident]
+        m = to_onnx(fn, spec, **over)
     else:
         from jax2onnx import to_onnx
         fn, spec = _programs()[ident]
@@ -250,7 +382,7 @@ def job_key(kind, ident):
 def _worker(job):
     """job = (kind, ident, overrides, cfg) -> dict"""
     kind, ident, over, cfg = job
-    res = {"job": [kind, ident, over], "cfg": cfg, "key": None, "bytes": None, "error": None, "ext": None, "term": None, "stats": None}
+    res = {"job": [kind, ident, over], "cfg": cfg, "key": None, "bytes": None, "error": None, "ext": None, "term": None, "stats": None, "run": None}
     try:
         res["key"] = job_key(kind, ident)
     except Exception as e:  # noqa
@@ -268,6 +400,12 @@ def _worker(job):
         res["ext"] = external_checks(data)
     except Exception as e:  # noqa
         res["ext"] = {"harness": _short(e)}
+    if kind == "sym" and res["ext"].get("ort", "x") is None:
+        try:
+            fn, spec = _sym_programs()[ident]
+            res["run"] = run_two_bindings(fn, spec, data, bool(over.get("enable_double_precision")))
+        except Exception as e:  # noqa
+            res["run"] = "harness: " + _short(e)
     try:        # conversion for the Coq validator + statistics happen here, so that tensor payloads never travel
         import onnx
         import onnx2coq
@@ -330,6 +468,11 @@ def plan_jobs(total, tier, seed, newest, newest_ort):
     progs = [("extra", n) for n in exports.extra_names()] + [("c03", n) for n in PROGRAM_NAMES]
     for k, n in progs:
         jobs.append((k, n, {}, "default"))
+    syms = [("sym", n) for n in sym_names()]          # symbolic dims x control flow x position of the dim use
+    for k, n in syms:
+        jobs.append((k, n, {}, "default"))
+    if not quick:
+        progs = progs + syms
     # registry cases carry their own double-precision variants (`*_f64` testcases, ~37% of the registry) and declare
     # where f64 is unsupported (run_only_f32_variant), so double precision is FORCED only on the hand-written programs
     alts = [("opset21", {"opset": 21}, True), (f"opset{newest_ort}", {"opset": newest_ort}, True),
@@ -970,6 +1113,16 @@ def run(ctx):
                             f"{tool} rejects the export of {cid}: " + " ".join(msg[:300].split()) + ("  [VALIDATOR GAP: wf_model accepted]" if gap else ""),
                             dict(replay, tool=tool, message=msg))
                 break   # one violation per case: the first rejecting tool
+        if r["job"][0] == "sym":
+            if r.get("run") is None and ext.get("ort") is None:
+                per_tool["ort_runs_two_bindings_ok"] += 1
+            elif r.get("run"):
+                per_tool["ort_runs_two_bindings_failed"] += 1
+                if str(r["run"]).startswith("harness:"):
+                    ctx.oblige(f"harness:run-two-bindings:{cid}", False, "tie", r["run"])
+                else:
+                    ctx.violate(f"run:ort:{cid}", f"the export of {cid} loads but does not run for two bindings of its symbolic "
+                                f"dims: " + " ".join(str(r["run"])[:300].split()), dict(replay, run=r["run"]))
         if len(samples) < 8 and (st["subgraphs"] or st["functions"]):
             samples.append({"case": cid, **st, "wf_model": None if cr is None else cr[0]})
     for op, cases in sorted(grouped_unknown.items()):
@@ -992,7 +1145,9 @@ def run(ctx):
         "rejected_loudly_by_config": dict(cfg_rejected),
         "programs": {"registry_cases": len({r["key"] for r in results if r["job"][0] == "reg"}),
                      "shared_extras": len({r["key"] for r in results if r["job"][0] == "extra"}),
-                     "c03_programs": len({r["key"] for r in results if r["job"][0] == "c03"})},
+                     "c03_programs": len({r["key"] for r in results if r["job"][0] == "c03"}),
+                     "c03_symbolic_dim_x_control_flow_programs": len({r["key"] for r in results if r["job"][0] == "sym"}),
+                     "symbolic_family_axes": {"control": SYM_CONTROLS, "dim_use": SYM_USES, "symbols": ["B", "B,C"]}},
         "configs": dict(per_cfg), "per_tool": dict(per_tool),
         "opsets": {"onnx_newest": newest, "newest_loadable_by_installed_onnxruntime": newest_ort,
                    "ort_skipped_unsupported_opset": ort_opset_skips,
@@ -1028,6 +1183,12 @@ def _replay_one(kind, ident, over):
     finally:
         ctx.cleanup()
     print("wf_model / table_ok / wf_first_bad:", res[0], problems)
+    if kind == "sym" and ext.get("ort") is None:
+        fn, spec = _sym_programs()[ident]
+        rr = run_two_bindings(fn, spec, data, bool(over.get("enable_double_precision")))
+        print("onnxruntime run on two bindings:", rr or "ok")
+        if rr:
+            ext["run"] = rr
     bad_ext = any(v is not None and not (t == "ort" and ort_tool_limit(v)) for t, v in ext.items())
     bad_wf = res[0] is None or not res[0][0]
     print("case", key, over, "still failing" if (bad_ext or bad_wf) else "passes now")
